@@ -1369,6 +1369,12 @@ static bool parse_cs_string(TokenContext &ctx, Chunk &pc)
       else if (ch == '\r')
       {
          pc.SetType(CT_STRING_MULTI);
+
+         if (ctx.peek() != '\n')
+         {
+            // a CR that is not part of a CRLF is a line break, too
+            pc.SetNlCount(pc.GetNlCount() + 1);
+         }
       }
       else if (parseState.top().braceDepth > 0)
       {
@@ -1555,7 +1561,9 @@ static bool parse_cr_string(TokenContext &ctx, Chunk &pc, size_t q_idx)
          return(true);
       }
 
-      if (ctx.peek() == '\n')
+      if (  (ctx.peek() == '\n')
+         || (  (ctx.peek() == '\r')       // a CR that is not part of a CRLF is a line break, too
+            && (ctx.peek(1) != '\n')))
       {
          pc.Str().append(ctx.get());
          pc.SetNlCount(pc.GetNlCount() + 1);
